@@ -1461,9 +1461,10 @@ class HtmlTreeView(HtmlView):
 
     # Override uncollapse.
     if 'uncollapse' in call_kwargs or 'uncollapse' in overriden_kwargs:
-      uncollapse = KeyPathSet.from_value(
-          call_kwargs.pop('uncollapse', None) or []
-      )
+      uncollapse = call_kwargs.pop('uncollapse', None)
+      if not callable(uncollapse):
+        # A node filter function is kept as is (see `merge_uncollapse`).
+        uncollapse = KeyPathSet.from_value(uncollapse or [])
       child_uncollapse = KeyPathSet.from_value(
           overriden_kwargs.pop('uncollapse', None) or []
       )
